@@ -13,8 +13,11 @@ r = sh(f"git -C /repo apply {patch}")
 assert r.returncode == 0, "patch does not apply: " + r.stderr
 res = {"patch": patch}
 try:
-    t = sh("cd /repo && cargo test --offline 2>&1 | grep 'test result' | head -1")
-    res["baseline"] = t.stdout.strip()
+    if os.environ.get("SEEDED_SKIP_BASELINE"):
+        res["baseline"] = "(not re-run; confirmed at intake)"
+    else:
+        t = sh("cd /repo && cargo test --offline 2>&1 | grep 'test result' | head -1")
+        res["baseline"] = t.stdout.strip()
     for c in ids:
         t0 = time.time()
         r = sh(f"cd {ROOT} && ./check {c} quick")
